@@ -208,6 +208,14 @@ func c12(ctx *Ctx) (*Outcome, error) {
 			pr := sg.NewRng(ctx.Seed, fmt.Sprintf("C12-perm-%d-%d", i, k))
 			record("permuted", cli.Run(ctx.Env, &cli.Inv{Files: c.files(pr), Args: c.args()}))
 		}
+		// the same options written differently (short flags, --flag=value, repeated vs comma-joined lists)
+		{
+			a := RespellOpts(append([]string{"-p", "detpkg"}, c.opts...))
+			for _, f := range c.fs.Files {
+				a = append(a, f.Path)
+			}
+			record("respelled-options", cli.Run(ctx.Env, &cli.Inv{Files: c.files(nil), Args: a}))
+		}
 		// relocation: another absolute directory (deeper, different name); the cwd stays the schema root so that
 		// relative arguments are the same
 		deep := filepath.Join(ctx.Env.St.TempDir("reloc"), "moved", "elsewhere", fmt.Sprintf("x%d", i))
